@@ -311,6 +311,28 @@ func TestC20MakeSimple(t *testing.T) {
 		c := genfont.Gen(o).Draw(t, "font")
 		out := c.Font.Outlines.(*cff.Outlines)
 		n := len(out.Glyphs)
+		if n >= 5 && rapid.IntRange(0, 3).Draw(t, "placeholderRun") == 0 {
+			// left-over names of an earlier conversion: a run of consecutive
+			// placeholder names on some glyphs, no name on most others, so that
+			// the numbering of new placeholders walks into the run
+			k := rapid.IntRange(1, 4).Draw(t, "runStart")
+			idx := rapid.Permutation(func() []int {
+				r := make([]int, n-1)
+				for i := range r {
+					r[i] = i + 1
+				}
+				return r
+			}()).Draw(t, "runGlyphs")
+			runLen := rapid.IntRange(2, 3).Draw(t, "runLen")
+			for i, g := range out.Glyphs {
+				if i > 0 && rapid.IntRange(0, 3).Draw(t, "dropName") != 0 {
+					g.Name = ""
+				}
+			}
+			for j := 0; j < runLen && j < len(idx); j++ {
+				out.Glyphs[idx[j]].Name = fmt.Sprintf("orn%03d", k+j)
+			}
+		}
 		orig := make([]string, n)
 		for i, g := range out.Glyphs {
 			orig[i] = g.Name
